@@ -81,3 +81,22 @@ pub fn programs() -> Vec<(String, String)> {
     }
     out
 }
+
+/// The u16 widths (constant-pool indices, local slots): programs around 65535 constants and
+/// 65535 locals.  Half a megabyte of source each and, in a debug build, some twenty seconds of
+/// compile time because the pool is searched linearly: thorough tier only.
+pub fn huge_programs() -> Vec<(String, String)> {
+    let mut out: Vec<(String, String)> = vec![];
+    // the pool also holds a handful of constants of its own (entry name, method, null), so a
+    // few counts around the limit are tried: one of them is the exact boundary
+    for n in [65500usize, 65528, 65531, 65533, 65535, 65537] {
+        let lits: Vec<String> = (1..=n).map(|i| i.to_string()).collect();
+        out.push((format!("{}-integer-constants", n), format!("{}; print(\"done\\n\")", lits.join("; "))));
+    }
+    for n in [65533usize, 65534, 65535, 65536, 65537] {
+        let lets: Vec<String> = (0..n).map(|i| format!("let v{} = 0;", i)).collect();
+        out.push((format!("function-{}-locals", n), format!("function f() -> begin {} v0 + v{} end; print(\"~\\n\", f())", lets.join(" "), n - 1)));
+    }
+    out
+}
+
